@@ -186,3 +186,54 @@ SPECS["C08"] = {
          "limits": {"quick": {"timeout": "600s"}, "thorough": {"timeout": "1800s"}}},
     ],
 }
+
+
+SPECS["C05"] = {
+    "explanation": "CONCAT: a datagram line1 \\n line2 [\\n] with every byte of both lines symbolic (any value but newline; trailing newline, ignore-host symbolic) is "
+                   "parsed by the real DatagramParser.handleDatagram and compared field by field with parsing each line alone: same metrics (name, type, value, "
+                   "string value, rate, tags, source, time), same events, bad-line and event counts equal to the sums. FRAME: in-place name normalisation of one "
+                   "line never changes a byte after that line. LAST GAUGE: two gauge lines of one datagram folded into a map with the real MetricMap.Receive "
+                   "leave the last line's value, the receive time and the sender as source. IGNORE-HOST: grammar-generated tag lists with a host: tag at a "
+                   "symbolic position: source = sender address, or with ignore-host the value of the first host: tag, which is removed exactly once. ALIAS: a "
+                   "datagram is folded into a map (metrics go back to the pool: LIFO sync.Pool model = maximal reuse), its buffer is overwritten with arbitrary "
+                   "bytes and a second datagram is parsed into the re-used metric; name, tags, source and set members of the first map must be unchanged.",
+    "bounds": {"quick": "two lines, each either 2..3 fully symbolic bytes or the shape k:v|t with symbolic k, v, t (valid, invalid, normalised or deleted name); frame: line of 4..5 bytes; <= 3 tags of 1 byte; alias: tags of 1..2 bytes, all four types",
+               "thorough": "lines of 4+3 and 3+4 bytes (namespace ns), frame 6 bytes, tags of 2 bytes"},
+    "outside": ["more than two lines per datagram (the splitting loop is the same iteration)", "empty lines (an empty middle line is counted as a bad line by the code; "
+                "the property does not say whether an empty line is a rejected line)", "the receiver's buffer pool under real concurrency",
+                "aliasing through unsafe string construction (not used by the code; the engine would stop with UNSUPPORTED)"],
+    "assumptions": STUBS_COMMON + [PF_STUB, TIME_MODEL, "rate.Limiter.Allow returns false (bad-line logging is not the subject)"],
+    "jobs": [
+        {"pkg": "./pkg/statsd", "harness": "pkg/statsd", "mode": "machine",
+         "entries": {"quick": ["VerifC05_Concat_S_S", "VerifC05_Concat_S_3", "VerifC05_Concat_2_S", "VerifC05_Frame_4_2", "VerifC05_Frame_5_2", "VerifC05_LastGauge", "VerifC05_IgnoreHost_1_1", "VerifC05_IgnoreHost_2_1",
+                               "VerifC05_IgnoreHost_3_1", "VerifC05_Alias1", "VerifC05_Alias2", "VerifC05_ConcatTwin"],
+                     "thorough": ["VerifC05_Concat_S_S", "VerifC05_Concat_S_3", "VerifC05_Concat_2_S", "VerifC05_Concat_3_3", "VerifC05_Concat_4_3", "VerifC05_Concat_3_4", "VerifC05_Frame_4_2", "VerifC05_Frame_5_2", "VerifC05_Frame_6_2",
+                                  "VerifC05_LastGauge", "VerifC05_IgnoreHost_1_1", "VerifC05_IgnoreHost_2_1", "VerifC05_IgnoreHost_3_1", "VerifC05_IgnoreHost_3_2",
+                                  "VerifC05_Alias1", "VerifC05_Alias2", "VerifC05_ConcatTwin"]},
+         "reach": {"VerifC05_Concat_S_S": ["bad-and-good", "two-metrics"], "VerifC05_Frame_4_2": ["done"], "VerifC05_LastGauge": ["gauge"],
+                   "VerifC05_IgnoreHost_2_1": ["keep-host", "ignore-host"], "VerifC05_Alias1": ["checked"]},
+         "twin": {"VerifC05_ConcatTwin": True},
+         "limits": {"quick": {"timeout": "900s"}, "thorough": {"timeout": "5400s"}}},
+    ],
+}
+
+SPECS["C04"] = {
+    "explanation": "AGGREGATOR: the real NewMetricAggregator / ReceiveMap / Flush / Reset / Flush (so the flush of a persisted idle series is included) on a timer with n "
+                   "symbolic values, one symbolic integer percentile in [-100,100] (both signs), symbolic sub-metric switches; histogram-tagged timers with symbolic "
+                   "(parsable or malformed) bucket items and limits 0/1/2/max are covered by the C08 histogram entries that run here as well. BACKENDS: each bundled "
+                   "backend's payload builder is fed the map the real Flush produced. The only obligations are Go's own: no index/slice/nil/divide/type-assertion "
+                   "panic and no explicit panic on any path.",
+    "bounds": {"quick": "aggregator: n = 0..4 values; backends: see entries", "thorough": "aggregator: n = 0..6"},
+    "outside": ["JSON / protobuf / gzip encoding of the built payloads, the AWS SDK, HTTP transport", "more than one percentile per run"],
+    "assumptions": STUBS_COMMON + [MATH_NOTE, PF_STUB, TIME_MODEL, "fmt.Sprintf/Fprintf and strconv.FormatFloat return opaque non-empty strings"],
+    "jobs": [
+        {"pkg": "./pkg/statsd", "harness": "pkg/statsd", "mode": "math",
+         "entries": {"quick": ["VerifC04_AggPct0", "VerifC04_AggPct1", "VerifC04_AggPct2", "VerifC04_AggPct3", "VerifC04_AggPct4"],
+                     "thorough": ["VerifC04_AggPct0", "VerifC04_AggPct1", "VerifC04_AggPct2", "VerifC04_AggPct3", "VerifC04_AggPct4"]},
+         "reach": {"*": ["flushed", "flushed-empty"]},
+         "limits": {"quick": {"timeout": "600s"}, "thorough": {"timeout": "1800s"}}},
+        {"pkg": "./pkg/statsd", "harness": "pkg/statsd", "mode": "machine",
+         "entries": {"quick": ["VerifC08_Hist_1_1_1", "VerifC08_Hist_2_1_2", "VerifC08_Hist_2_1_2L1", "VerifC08_Hist_L0"]},
+         "limits": {"quick": {"timeout": "600s"}}},
+    ],
+}
